@@ -43,7 +43,7 @@ enum OpKind
   OP_CTX_BEGIN     // a=span index b=scope index: attach a context whose span key holds a
                    // shared_ptr<SpanContext> (not a Span)
 };
-const int kForms = 22, kSpans = 5, kScopes = 6;
+const int kForms = 23, kSpans = 5, kScopes = 6;
 const int64_t kExplicitTs = 1650000000000000000ll;
 
 std::string hex(const uint8_t *p, size_t n)
@@ -59,7 +59,7 @@ struct Snap
   int severity = 0;
   std::string body;
   std::map<std::string, std::string> attrs;
-  int64_t ts = 0, event_id = 0;
+  int64_t ts = 0, event_id = 0, observed_ts = 0;
   std::string event_name, trace_id, span_id;
   int flags            = 0;
   const void *resource = nullptr, *scope = nullptr;
@@ -86,6 +86,8 @@ struct MRec
   int flags     = 0;
   bool emitted  = true;
   bool disabled = false;
+  bool second_logger = false;
+  int64_t sys_before = 0, sys_after = 0;  // simulated system clock around the Emit call
 };
 
 struct World
@@ -96,8 +98,8 @@ struct World
   std::vector<bool> is_batch;
   std::map<int64_t, MRec> model;
   std::vector<val::Scratch::Block> retained;
-  nostd::shared_ptr<logs_api::Logger> logger, dlogger;
-  const void *resource = nullptr, *scope = nullptr;
+  nostd::shared_ptr<logs_api::Logger> logger, dlogger, logger2;
+  const void *resource = nullptr, *scope = nullptr, *scope2 = nullptr;
 };
 World *W = nullptr;
 
@@ -126,6 +128,7 @@ public:
           tag = nostd::get<int64_t>(kv.second);
       }
       s.ts         = lr->GetTimestamp().time_since_epoch().count();
+      s.observed_ts = lr->GetObservedTimestamp().time_since_epoch().count();
       s.event_id   = lr->GetEventId();
       s.event_name = std::string(lr->GetEventName());
       s.trace_id   = hex(lr->GetTraceId().Id().data(), 16);
@@ -216,11 +219,14 @@ void do_emit(TaskState &ts, const Op &op, int64_t tag)
   const uint8_t xflags = ((seed >> 8) & 1) ? (uint8_t)(seed >> 16) : (uint8_t)((seed >> 9) & 1);
   trace_api::SpanContext xctx(trace_api::TraceId(xt), trace_api::SpanId(xs),
                               trace_api::TraceFlags(xflags), true);
-  auto &L = *w.logger;
+  // form 22: the same as form 2 through a second (enabled) logger with its own scope
+  m.second_logger = op.a == 22;
+  auto &L         = m.second_logger ? *w.logger2 : *w.logger;
+  m.sys_before    = std::chrono::system_clock::now().time_since_epoch().count();
   vsim::yield();
   {
     InOp io;
-    switch (op.a)
+    switch (op.a == 22 ? 4 : op.a)
     {
       case 0: {
         auto p = pairs(false);
@@ -448,6 +454,7 @@ void do_emit(TaskState &ts, const Op &op, int64_t tag)
       }
     }
   }
+  m.sys_after = std::chrono::system_clock::now().time_since_epoch().count();
   // Emit has returned: the caller reuses or frees its buffers
   ks.release();
   vs.overwrite_and_retain(w.retained);
@@ -576,8 +583,8 @@ void generate(const std::string &, Rng &wl, Rng &fl, Case &c)
           if (!ok)
             aseed = 0;
           // forms whose body is a string_view by construction
-          static const int64_t scalar_forms[] = {0, 2, 3, 4, 6, 7, 8, 10, 11, 12, 14, 15, 16, 17, 18, 21};
-          form = scalar_forms[wl.below(16)];
+          static const int64_t scalar_forms[] = {0, 2, 3, 4, 6, 7, 8, 10, 11, 12, 14, 15, 16, 17, 18, 21, 22};
+          form = scalar_forms[wl.below(17)];
         }
         p.ops.push_back({OP_EMIT, form, alt, aseed, (int64_t)(wl.next() >> 2)});
       }
@@ -630,12 +637,15 @@ void body(const Case &c)
                                  std::move(cfg));
     w.logger   = prov.GetLogger("main", "main-lib", "1.0");
     w.dlogger  = prov.GetLogger("off", "disabled-lib", "1.0");
+    w.logger2  = prov.GetLogger("aux", "aux-lib", "2.0");
+    w.scope2   = &static_cast<sdklogs::Logger *>(w.logger2.get())->GetInstrumentationScope();
     w.resource = &prov.GetResource();
     w.scope    = &static_cast<sdklogs::Logger *>(w.logger.get())->GetInstrumentationScope();
     run_tasks(c, [&](int i, const TaskProg &t) { run_program(i, t); });
     prov.ForceFlush();
     w.logger  = nostd::shared_ptr<logs_api::Logger>(nullptr);
     w.dlogger = nostd::shared_ptr<logs_api::Logger>(nullptr);
+    w.logger2 = nostd::shared_ptr<logs_api::Logger>(nullptr);
   }
   // the provider is gone: every deferred export has happened; now the caller's memory may go
   for (auto &b : w.retained)
@@ -688,8 +698,15 @@ void body(const Case &c)
       if (g.resource != w.resource)
         vsim::report("C13.resource", fmt("record %lld: resource is not the provider's",
                                          (long long)m.tag));
-      if (g.scope != w.scope)
-        vsim::report("C13.scope", fmt("record %lld: scope is not the logger's", (long long)m.tag));
+      if (g.scope != (m.second_logger ? w.scope2 : w.scope))
+        vsim::report("C13.scope", fmt("record %lld: scope is not its logger's", (long long)m.tag));
+      // the observed timestamp is taken when the record is created, inside the call
+      if (g.observed_ts < m.sys_before || g.observed_ts > m.sys_after)
+        vsim::report("C13.observed_timestamp",
+                     fmt("record %lld (form %d): observed timestamp %lld is outside the Emit call "
+                         "[%lld, %lld]",
+                         (long long)m.tag, m.form, (long long)g.observed_ts,
+                         (long long)m.sys_before, (long long)m.sys_after));
       // body
       if (g.body != m.body)
       {
@@ -769,7 +786,8 @@ std::string describe_op(const Case &, int, const Op &op)
                                 "record created under one active span, emitted under another",
                                 "Log(Severity, EventId, format, KeyValueIterable)",
                                 "Log(Severity, int64 event id, format, KeyValueIterable)",
-                                "Warn(body, attrs)"};
+                                "Warn(body, attrs)",
+                                "(Severity, body, SystemTimestamp, attrs) through a second logger"};
   switch (op.kind)
   {
     case OP_EMIT:
@@ -818,7 +836,7 @@ const EngineDesc g_engine = {
     kReal,
     kStub,
     "one run = 1-3 processors (simple/batch mix behind the multi processor), 1-3 emitting tasks "
-    "x 1-8 operations (Scope begin/end on the task's own stack; Emit in one of 22 argument "
+    "x 1-8 operations (Scope begin/end on the task's own stack; Emit in one of 23 argument "
     "forms: severity, string/AttributeValue body over all 16 alternatives, attributes as pair "
     "span / KeyValueIterable / std::map, timestamps, EventId with and without name, explicit "
     "SpanContext / TraceId+SpanId+TraceFlags / SpanId only, reversed order, two bodies, two "
